@@ -88,6 +88,11 @@ fn judge(case: &ValCase, out: &Out, prop_kind: &str, cpu_s: u64) -> Vec<Failure>
         return vec![];
     }
     if case.reject_ok && matches!(out, Out::CompileError { .. }) {
+        if std::env::var("XV_DEBUG_REJECT").is_ok() {
+            if let Out::CompileError { class, text } = out {
+                eprintln!("REJECTED {class}: {} <= {}", text.lines().last().unwrap_or("").chars().take(160).collect::<String>(), case.body.replace('\n', " ").chars().take(200).collect::<String>());
+            }
+        }
         return vec![];
     }
     let kind = match out {
